@@ -151,6 +151,12 @@ def case_fans(psutil, case):
     put(w, base + "/fan1_input", st_in, b"2100\n")
     put(w, base + "/fan1_label", st_label, b"cpu fan\n")
     w.set_file(base + "/fan2_input", b"900\n")
+    # two more fan chips with names of their own, in the same nesting (any number of chips)
+    for n_, (nm_, rpm_) in enumerate((("nct6775", 1500), ("thinkpad", 3100)), start=1):
+        b_ = "/sys/class/hwmon/hwmon%d" % n_ + ("/device" if nesting == "device" else "")
+        w.mkdir(b_)
+        w.set_file(b_ + "/name", nm_.encode() + b"\n")
+        w.set_file(b_ + "/fan1_input", b"%d\n" % rpm_)
     got = outcome(psutil.sensors_fans)
     if got[0] != "ok":
         return [("fans-raised:%s:input-%s" % (got[1], st_in), "%r (case %r)" % (got, case))]
@@ -159,8 +165,8 @@ def case_fans(psutil, case):
         exp.append(["cpu fan" if st_label == "ok" else ("N/A" if st_label == "garbage" else ""), 2100])
     exp.append(["", 900])
     g = {k: [[x.label, x.current] for x in v] for k, v in got[1].items()}
-    if g != {"fanchip": exp}:
-        return [("fans", "got %r expected %r (case %r)" % (g, exp, case))]
+    if g != {"fanchip": exp, "nct6775": [["", 1500]], "thinkpad": [["", 3100]]}:
+        return [("fans", "got %r expected %r + two more chips (case %r)" % (g, exp, case))]
     return []
 
 
@@ -359,6 +365,21 @@ def case_freq_sysfs(psutil, case):
         mean = [sum(r[i] for r in exp) / len(exp) for i in range(3)]
         if any(abs(a - b) > 1e-6 for a, b in zip([got[1].current, got[1].min, got[1].max], mean)) and not bad:
             bad.append(("cpu_freq:sysfs:mean", "got %r expected %r" % (freeze(got[1]), mean)))
+    # the limits are run-time tunables (governor, power profile, thermal throttling): a later call reports them as they are THEN
+    exp2 = [list(r) for r in exp]
+    changed = False
+    for i, c in enumerate(cpus):
+        if c[3]:
+            d = "/sys/devices/system/cpu/cpufreq/policy%d" % i if layout == "policy" else "/sys/devices/system/cpu/cpu%d/cpufreq" % i
+            w.set_file(d + "/scaling_min_freq", b"%d\n" % (c[1] + 400000))
+            w.set_file(d + "/scaling_max_freq", b"%d\n" % (c[2] - 100000))
+            exp2[i][1], exp2[i][2] = (c[1] + 400000) / 1000.0, (c[2] - 100000) / 1000.0
+            changed = True
+    if changed and not bad:
+        got = outcome(psutil.cpu_freq, percpu=True)
+        g = [[x.current, x.min, x.max] for x in got[1]] if got[0] == "ok" else got
+        if got[0] != "ok" or len(g) != len(exp2) or any(abs(a - b) > 1e-6 for r1, r2 in zip(g, exp2) for a, b in zip(r1, r2)):
+            bad.append(("cpu_freq:sysfs:second-call-after-limits-changed", "got %r expected %r (case %r)" % (g, exp2, case)))
     return bad
 
 
